@@ -138,5 +138,6 @@ SmallCaps == 0..24 \cup {127, 128}
 IterCaps  == 0..24 \cup {63, 64, 127, 128, PMAX - 2, PMAX - 1}
 EmitSmall == 0..9 \cup {PMAX - 1}
 NoCaps    == {}
+WideCaps  == {254, 255, 256, 257, 300, 1000}
 OneCap    == {PMAX - 1}
 =============================================================================
